@@ -47,6 +47,7 @@ type nilFlow struct {
 	pairIdx map[*ssa.Function][2]int // (value index, error index) for XOR candidates
 	kf      *kindFlow
 	phase1  bool
+	noInfeasible bool
 	nzCache map[string]bool
 	converged bool
 }
@@ -113,68 +114,50 @@ func (c *Ctx) newNilFlow() *nilFlow {
 	}
 	nf.findNonNilGlobals()
 	nf.refreshNonNilGlobals()
-	// phase 1: NONNIL as a greatest fixpoint over plain forward facts (constants, allocations, constructors,
-	// dominating tests) — no pair correlation, no edge infeasibility, so it is monotone
-	nf.phase1 = true
-	for iter := 0; iter < 50; iter++ {
-		changed := false
+	// Rounds: round 0 computes NONNIL without pair correlation (succ/failnil unknown = false), then SUCC/FAILNIL;
+	// later rounds recompute NONNIL optimistically with correlation against the previous round's (sound) SUCC/FAILNIL.
+	initSucc, initFail := nf.succ, nf.failnil
+	nf.succ, nf.failnil = map[*ssa.Function]bool{}, map[*ssa.Function]bool{}
+	prevSig := ""
+	for round := 0; round < 4; round++ {
 		for _, f := range nf.funcs {
 			for i := range nf.nonnil[f] {
-				if nf.nonnil[f][i] && !nf.checkNonNil(f, i) {
-					nf.nonnil[f][i] = false
-					changed = true
+				nf.nonnil[f][i] = true
+			}
+		}
+		nf.noInfeasible = true
+		for iter := 0; iter < 50; iter++ {
+			changed := false
+			for _, f := range nf.funcs {
+				for i := range nf.nonnil[f] {
+					if nf.nonnil[f][i] && !nf.checkNonNil(f, i) {
+						nf.nonnil[f][i] = false
+						changed = true
+					}
 				}
 			}
+			if nf.refreshNonNilGlobals() {
+				changed = true
+			}
+			if !changed {
+				break
+			}
 		}
-		if nf.refreshNonNilGlobals() {
-			changed = true
+		nf.noInfeasible = false
+		// phase 2 starts optimistic
+		nf.succ, nf.failnil = map[*ssa.Function]bool{}, map[*ssa.Function]bool{}
+		for f := range initSucc {
+			nf.succ[f] = true
 		}
-		if !changed {
+		for f := range initFail {
+			nf.failnil[f] = true
+		}
+		nf.phase2()
+		sig := nf.signature()
+		if sig == prevSig {
 			break
 		}
-	}
-	nf.phase1 = false
-	// phase 2: SUCC / FAILNIL. Edge-infeasibility reasoning is not monotone in the assumed summaries, so the
-	// summaries are recomputed as a whole from the previous round's (Jacobi), starting optimistic, until stable.
-	for iter := 0; iter < 40; iter++ {
-		newSucc, newFail := map[*ssa.Function]bool{}, map[*ssa.Function]bool{}
-		why := map[*ssa.Function]string{}
-		for f := range nf.pairIdx {
-			w1 := nf.checkPair(f, true)
-			w2 := nf.checkPair(f, false)
-			newSucc[f] = w1 == ""
-			newFail[f] = w2 == ""
-			if w1 != "" {
-				why[f] = w1
-			} else if w2 != "" {
-				why[f] = w2
-			}
-		}
-		same := true
-		for f := range nf.pairIdx {
-			if newSucc[f] != nf.succ[f] || newFail[f] != nf.failnil[f] {
-				same = false
-			}
-		}
-		nf.succ, nf.failnil, nf.xorWhy = newSucc, newFail, why
-		if same {
-			nf.converged = true
-			break
-		}
-	}
-	if !nf.converged {
-		// no stable assignment found: keep only what also holds with every summary withdrawn
-		for f := range nf.pairIdx {
-			nf.succ[f], nf.failnil[f] = false, false
-		}
-		for f := range nf.pairIdx {
-			if nf.checkPair(f, true) == "" {
-				nf.succ[f] = true
-			}
-			if nf.checkPair(f, false) == "" {
-				nf.failnil[f] = true
-			}
-		}
+		prevSig = sig
 	}
 	for f := range nf.pairIdx {
 		nf.xor[f] = nf.succ[f] && nf.failnil[f]
@@ -358,7 +341,7 @@ func (nf *nilFlow) classify(v ssa.Value, facts map[ssa.Value]nilness, b *ssa.Bas
 					addCondFacts(ifi.Cond, pred.Succs[0] == x.Block(), pf)
 				}
 			}
-			if nf.phase1 {
+			if nf.noInfeasible {
 				n := nf.classify(e, pf, pred, depth+1)
 				if out == -1 {
 					out = n
@@ -464,10 +447,7 @@ func (nf *nilFlow) callResult(call *ssa.Call, idx int, facts map[ssa.Value]nilne
 	if all {
 		return nNonNil
 	}
-	if nf.phase1 {
-		return nUnknown
-	}
-	// correlation of a callee's own (value, error) pair
+	// correlation of a callee's own (value, error) pair (summaries of the previous round; none in round 0)
 	allSucc, allFail := true, true
 	for _, g := range cs {
 		if !nf.succ[g] {
@@ -490,7 +470,9 @@ func (nf *nilFlow) callResult(call *ssa.Call, idx int, facts map[ssa.Value]nilne
 		found := false
 		for _, ref := range *call.Referrers() {
 			if ex, ok := ref.(*ssa.Extract); ok && ex.Index == partnerIdx {
-				found = true
+				if ex.Referrers() != nil && len(*ex.Referrers()) > 0 {
+					found = true // the partner result is actually looked at somewhere
+				}
 				if n, ok := facts[ex]; ok {
 					partner = n
 				}
@@ -1265,4 +1247,70 @@ func resolveFieldLoad(v ssa.Value) ssa.Value {
 		}
 	}
 	return v
+}
+
+func (nf *nilFlow) phase2() {
+	nf.converged = false
+	// phase 2: SUCC / FAILNIL. Edge-infeasibility reasoning is not monotone in the assumed summaries, so the
+	// summaries are recomputed as a whole from the previous round's (Jacobi), starting optimistic, until stable.
+	for iter := 0; iter < 40; iter++ {
+		newSucc, newFail := map[*ssa.Function]bool{}, map[*ssa.Function]bool{}
+		why := map[*ssa.Function]string{}
+		for f := range nf.pairIdx {
+			w1 := nf.checkPair(f, true)
+			w2 := nf.checkPair(f, false)
+			newSucc[f] = w1 == ""
+			newFail[f] = w2 == ""
+			if w1 != "" {
+				why[f] = w1
+			} else if w2 != "" {
+				why[f] = w2
+			}
+		}
+		same := true
+		for f := range nf.pairIdx {
+			if newSucc[f] != nf.succ[f] || newFail[f] != nf.failnil[f] {
+				same = false
+			}
+		}
+		nf.succ, nf.failnil, nf.xorWhy = newSucc, newFail, why
+		if same {
+			nf.converged = true
+			break
+		}
+	}
+	if !nf.converged {
+		// no stable assignment found: keep only what also holds with every summary withdrawn
+		for f := range nf.pairIdx {
+			nf.succ[f], nf.failnil[f] = false, false
+		}
+		for f := range nf.pairIdx {
+			if nf.checkPair(f, true) == "" {
+				nf.succ[f] = true
+			}
+			if nf.checkPair(f, false) == "" {
+				nf.failnil[f] = true
+			}
+		}
+	}
+}
+
+func (nf *nilFlow) signature() string {
+	var sb strings.Builder
+	for _, f := range nf.funcs {
+		for i := 0; i < f.Signature.Results().Len(); i++ {
+			if nf.nonnil[f][i] {
+				sb.WriteByte('1')
+			} else {
+				sb.WriteByte('0')
+			}
+		}
+		if nf.succ[f] {
+			sb.WriteByte('s')
+		}
+		if nf.failnil[f] {
+			sb.WriteByte('f')
+		}
+	}
+	return sb.String()
 }
